@@ -203,11 +203,6 @@ theorem frame (f : Forest) : ∀ (o : Option Act) (s : Fwd.St), (started (flatte
         rw [FR.pass c hc.2.2, Q.1, Q.2.2.2.2.1, FB.pass c hc.2.1, hw, P.2.2.2.2]
         simp [flatten, writesOf_append, writesOf_pre, writesOf_post, hw]
 
-/-- `action.out` changes only at a `read` step: an execution with capture off never sets it -/
-def reads : List Ev → List Act
-  | [] => []
-  | .read a :: rest => a :: reads rest
-  | _ :: rest => reads rest
 
 theorem emit_out (t : Tok) (str : Fwd.Stream) (s : Fwd.St) : (Fwd.emit t str s).out = s.out :=
   (emit_orig t str s).2.2.2.1
